@@ -321,6 +321,12 @@ static bool mode_pton_grammar() {
         }
     }
     uint16_t z[8] = {0, 0, 0, 0, 0, 0, 0, 0};
+    // the all-zero network written as a bare "::" (a configuration value may start with ':')
+    for (int n = 0; n <= 136; n++) {
+        snprintf(b, sizeof b, "::/%d", n);
+        if (!expect_mask(b, z, n, n <= 128)) return false;
+    }
+    if (!expect_mask("::", z, 128, true)) return false;
     if (!expect_mask("*", z, 0, true)) return false;
     if (!expect_mask("***", z, 0, true)) return false;
     cls("grammar_masks");
